@@ -1,4 +1,5 @@
 mod cfgbuild;
+mod console;
 mod envexpand;
 mod fanout;
 mod filetrace;
@@ -26,6 +27,8 @@ fn main() {
         "routing" => routing::main(rest),
         "cfgbuild" => cfgbuild::main(rest),
         "fanout" => fanout::main(rest),
+        "console" => console::main(rest),
+        "console-child" => console::child(rest),
         "jsonline" => jsonline::main(rest),
         "pattern" => pattern::main(rest),
         "width" => pattern::main_width(rest),
